@@ -302,7 +302,37 @@ ARRAY_EDGE = [
 ]
 
 
+ARRAY_NEIGHBOURS = [
+    # two array formulas side by side: the text of the first is the beginning of the text of the second
+    ({'sheets': [['Sheet1', {'A1': 1, 'A2': 2}]], 'names': {},
+      'arrays': [['Sheet1', 'F6:F7', '=A1:A2'], ['Sheet1', 'G6:G7', '=A1:A2*10']], 'calc': None},
+     'Sheet1!F6:G7', ((1, 10), (2, 20))),
+    # the same text entered over two separate targets, another cell between them
+    ({'sheets': [['Sheet1', {'A1': 1, 'A2': 2, 'B1': 3, 'B2': 4, 'H1': 1000, 'H2': 2000}]], 'names': {},
+      'arrays': [['Sheet1', 'F1:G2', '=A1:B2*2'], ['Sheet1', 'I1:J2', '=A1:B2*2']], 'calc': None},
+     'Sheet1!F1:J2', ((2, 6, 1000, 2, 6), (4, 8, 2000, 4, 8))),
+    # ... and directly next to each other
+    ({'sheets': [['Sheet1', {'A1': 1, 'A2': 2, 'B1': 3, 'B2': 4}]], 'names': {},
+      'arrays': [['Sheet1', 'F1:G2', '=A1:B2*2'], ['Sheet1', 'H1:I2', '=A1:B2*2']], 'calc': None},
+     'Sheet1!F1:I2', ((2, 6, 2, 6), (4, 8, 4, 8))),
+]
+
+
 def array_edge_cases(ctx):
+    for spec, text, want in ARRAY_NEIGHBOURS:
+        for first in (True, False):
+            comp = wb.compile_mem(spec)
+            if not first:
+                for a in wb.all_addresses(spec):
+                    wb.outcome(comp.evaluate, a)
+            got = wb.outcome(comp.evaluate, text)
+            ctx.count('directed:array_neighbours')
+            ctx.case(('array-neighbours', text, repr(spec['arrays']), first))
+            if got[0] != 'v' or not wb.same(got[1], want):
+                ctx.violation('range-over-two-array-formulas',
+                              f'evaluate({text!r}) ({"first access" if first else "after evaluating every cell"}) '
+                              f'over the array formulas {spec["arrays"]} gives {got!r}; the cells hold {want!r}',
+                              {'kind': 'array-edge', 'spec': spec, 'path': text})
     for spec, text, want in ARRAY_EDGE:
         for first in (True, False):
             comp = wb.compile_mem(spec)
@@ -346,6 +376,17 @@ CONTEXT_SPECS = [
 ]
 
 
+COMPUTED_REFERENCE_SPECS = [
+    # a formula whose result is a reference (INDIRECT, OFFSET) to a formula cell: what it shows must not depend
+    # on whether that cell was evaluated before
+    {'sheets': [['Sheet1', {'A1': 1, 'B1': '=A1*2', 'C1': '=INDIRECT("B1")', 'D1': '=OFFSET(A1,0,1)',
+                            'E1': '=C1+D1'}]], 'names': {}, 'arrays': [], 'calc': None},
+    {'sheets': [['Sheet1', {'A1': 3, 'A2': '=A1+1', 'A3': '=A2+1', 'C1': '=SUM(OFFSET(A1,0,0,3,1))',
+                            'C2': '=INDEX(OFFSET(A1,1,0,2,1),2)', 'C3': '=OFFSET(A3,-1,0)'}]],
+     'names': {}, 'arrays': [], 'calc': None},
+]
+
+
 SHEET_ARRAY_SPECS = [
     # array formulas on sheets whose names need care (a blank, a second sheet sharing a word with it)
     {'sheets': [['Sheet1', {'A1': 10, 'B1': "=SUM('My Sheet'!C1:C3)+A1"}], ['My Sheet', {'A1': 1, 'A2': 2, 'A3': 3}]],
@@ -356,7 +397,7 @@ SHEET_ARRAY_SPECS = [
 
 
 def context_books(ctx, rng):
-    for spec in CONTEXT_SPECS + SHEET_ARRAY_SPECS:
+    for spec in CONTEXT_SPECS + SHEET_ARRAY_SPECS + COMPUTED_REFERENCE_SPECS:
         members = wb.array_members(spec)
         meta = {'inputs': [], 'formulas': {a: {'form': 'cse', 'deps': []} for a in members}, 'order': []}
         for a, v in wb.spec_cells(spec).items():
